@@ -137,3 +137,15 @@ PROPS["C07"] = {
         {"name": "C07.mesh", "test": "TestVerifC07Mesh", "shards": 16},
     ],
 }
+
+PROPS["C08"] = {
+    "claimed": False,
+    "level": "exploration",
+    "level_text": "TODO",
+    "level_note": "TODO",
+    "technique": "TODO",
+    "rule": "TODO",
+    "monitors": [
+        {"name": "C08.backoff", "test": "TestVerifC08Backoff", "shards": 16},
+    ],
+}
